@@ -580,6 +580,45 @@ func revisionLawVariants(b *harness.B, c *chaingen.Chain, cs consensus.State, or
 			b.SetAdd("revision_law_rejections", name+" => "+chaingen.NormErr(err))
 		}
 	}
+	// renewal into a smaller contract: everything the old contract holds is rolled over, the new contract costs one
+	// hasting less than that, and the hasting left over leaves the transaction as an ordinary (undelayed) output.
+	// The rollover may never exceed what the NEW contract costs.
+	for i, t := range orig.V2Transactions() {
+		for k, res := range t.FileContractResolutions {
+			ren, ok := res.Resolution.(*types.V2FileContractRenewal)
+			if !ok {
+				continue
+			}
+			old := res.Parent.V2FileContract
+			P := old.RenterOutput.Value.Add(old.HostOutput.Value)
+			if P.Cmp(types.NewCurrency64(1000)) < 0 || P.Cmp(types.NewCurrency(0, 1<<56)) > 0 {
+				continue // the arithmetic below multiplies by 25
+			}
+			blk := chaingen.CloneBlock(orig)
+			tt := &blk.V2.Transactions[i]
+			r2 := *ren
+			r2.FinalRenterOutput.Value, r2.FinalHostOutput.Value = types.ZeroCurrency, types.ZeroCurrency
+			r2.RenterRollover, r2.HostRollover = old.RenterOutput.Value, old.HostOutput.Value
+			// new contract value v with v + v/25 <= P - 1 (the tax is 4%)
+			v := P.Sub(one).Mul64(25).Div64(26)
+			r2.NewContract.RenterOutput.Value, r2.NewContract.HostOutput.Value = v, types.ZeroCurrency
+			r2.NewContract.MissedHostValue, r2.NewContract.TotalCollateral = types.ZeroCurrency, types.ZeroCurrency
+			cost := v.Add(cs.V2FileContractTax(r2.NewContract))
+			if cost.Cmp(P) >= 0 {
+				continue
+			}
+			excess := P.Sub(cost)
+			nt := types.V2Transaction{FileContractResolutions: []types.V2FileContractResolution{{Parent: res.Parent.Copy(), Resolution: &r2}},
+				SiacoinOutputs: []types.SiacoinOutput{{Value: excess, Address: types.VoidAddress}}}
+			*tt = nt
+			blk.V2.Transactions = blk.V2.Transactions[:i+1]
+			c.SignV2(cs, tt, nil)
+			try("v2-renewal-rolls-over-more-than-the-new-contract-costs/excess-"+map[bool]string{true: "one-hasting", false: "more"}[excess.Cmp(one) == 0], blk, true)
+			b.Count("renewal_rollover_variants", 1)
+			_ = k
+			break
+		}
+	}
 	seenV2 := map[types.FileContractID]bool{}
 	for i, t := range orig.V2Transactions() {
 		if len(t.FileContractRevisions) == 0 {
